@@ -14,7 +14,14 @@ the weak reference), called with (tag, body); it logs [0, tag, clock] and interp
 made by user code is wrapped in try/except and its outcome logged ([4, tag, time] accepted, [1|2, tag, 0]
 rejected past / unit, [5, tag, 0] not attempted).  model.step logs [3, model.steps, clock] and interprets
 script[model.steps]."""
+import os
+
 import coqlit as L
+
+# optional heapq tie (DESIGN section 7): also compare the ORDER of EventList._events after every operation with the
+# heap array of Model/DevsHeap.v (CPython heapq transcribed in Model/Heap.v).  Off by default: the array layout is an
+# internal detail and must never decide a verdict of the normal run.
+HEAP_TIE = os.environ.get("VERIF_HEAPQ_TIE") == "1"
 
 S = 8
 R_OK, R_PAST, R_UNIT, R_SKIP = 0, 1, 2, 5
@@ -196,6 +203,8 @@ class _Env:
                 ob = [-1, E_EMPTY]
         else:
             raise ValueError(k)
+        if HEAP_TIE:
+            ob = ob + [-7] + [-8 if e.CANCELED else self.tag_of(e) for e in self.sim.event_list._events]
         info["log"] = [list(i) for i in self.log]
         info["atom"] = list(self.atom)
         info["after"] = self.snapshot()
